@@ -1,4 +1,5 @@
-"""C02 fact extractor: regenerates props/C02/coq/Extracted.v from
+"""C02 fact extractor (round 3: also the decide_repack limit expressions, keep condition, PackInfo::cmp
+operands, resize rule): regenerates props/C02/coq/Extracted.v from
 crates/core/src/commands/prune.rs (+ blob.rs):
 
   * decide_table   — the `(delete_mark, used_blobs, unused_blobs)` match of `decide_packs`,
